@@ -152,7 +152,7 @@ def r2(repo, chk):
     ps = Fn(repo, REC + "on_packet_sent")
     ins = [n for k, n in _sp_sites(ps) if k == "insert"]
     cbs = ps.calls(name="self._cc.on_packet_sent")
-    ok = len(ins) == 1 and len(cbs) == 1 and ps.lexical_guards(cbs[0], expand=False) == [("packet.in_flight", True)] and not ps.lexical_guards(ins[0], expand=False) and norm(get_kw(cbs[0], "packet", 0)) == "packet"
+    ok = len(ins) == 1 and len(cbs) == 1 and set(ps.guard_atoms_x(cbs[0])) == {("packet.in_flight", True)} and not ps.guard_atoms(ins[0]) and not ps.lexical_guards(ins[0], expand=False) and norm(get_kw(cbs[0], "packet", 0)) == "packet"
     chk.ob("R2", "on_packet_sent: insertion is unconditional and the controller is told exactly when packet.in_flight", ok, "", ps.loc(ps.node))
     inc = [st for st, t, v in ps.assigns(suffix="ack_eliciting_in_flight") if isinstance(st, ast.AugAssign) and isinstance(st.op, ast.Add)]
     ok = len(inc) == 1 and ps.lexical_guards(inc[0], expand=False) == [("packet.is_ack_eliciting", True)]
@@ -189,7 +189,7 @@ def r2(repo, chk):
         chk.ob("R2", "on_ack_received: ack_eliciting_in_flight -= 1 exactly for ack-eliciting popped packets", ok, "", ar.loc(p))
         # guard: only numbers in the ACK ranges are removed; never-sent numbers are simply absent from the dict
         lg = ar.lexical_guards(st, expand=False)
-        chk.ob("R2", "on_ack_received only pops packet numbers that are tracked and covered by the ACK ranges", ("packet_number in ack_rangeset", True) in lg and _loop_of(st) is not None and "sent_packets" in norm(_loop_of(st).iter), f"guards {lg}", ar.loc(p))
+        chk.ob("R2", "on_ack_received only pops packet numbers that are tracked and covered by the ACK ranges", ("packet_number in ack_rangeset", True) in lg + ar.guard_atoms(st) and _loop_of(st) is not None and "sent_packets" in norm(_loop_of(st).iter), f"guards {lg}", ar.loc(p))
         hl = [l for l in ar.stmts(lambda s: isinstance(s, ast.For)) if norm(l.iter) == f"{var}.delivery_handlers"]
         ok = len(hl) == 1 and ar.before(st, hl[0]) and [a for a in ar.lexical_guards(hl[0], expand=False) if a not in lg] == []
         if ok:
@@ -246,8 +246,7 @@ def r2(repo, chk):
     cb = dsf.calls(name="self._cc.on_packets_expired")
     ok = len(clears) == 1 and len(cb) == 1 and dsf.before(cb[0], clears[0]) and not dsf.lexical_guards(cb[0], expand=False) and not dsf.lexical_guards(clears[0], expand=False)
     if ok:
-        arg = norm(get_kw(cb[0], "packets"))
-        ok = arg in ("filter(lambda x: x.in_flight, space.sent_packets.values())", "[x for x in space.sent_packets.values() if x.in_flight]", "(x for x in space.sent_packets.values() if x.in_flight)")
+        ok = _filter_in_flight(get_kw(cb[0], "packets"), "space.sent_packets.values()")
     chk.ob("R2", "discard_space expires exactly the in-flight packets of the space before clearing it", ok, "", dsf.loc(dsf.node))
     z = [st for st, t, v in dsf.assigns(suffix="ack_eliciting_in_flight") if isinstance(v, ast.Constant) and v.value == 0]
     chk.ob("R2", "discard_space resets the ack-eliciting counter of the cleared space", len(z) == 1, "", dsf.loc(dsf.node))
@@ -284,6 +283,29 @@ def r2(repo, chk):
 # ---- R3 / R4 -----------------------------------------------------------------------------------------
 
 
+def _sum_over(e, iterable: str, attr: str) -> bool:
+    """e is sum(<x>.<attr> for <x> in <iterable>) - generator or list comprehension, no filter"""
+    if not (isinstance(e, ast.Call) and call_name(e) == "sum" and len(e.args) == 1 and not e.keywords and isinstance(e.args[0], (ast.GeneratorExp, ast.ListComp))):
+        return False
+    g = e.args[0]
+    if len(g.generators) != 1 or g.generators[0].ifs or not isinstance(g.generators[0].target, ast.Name):
+        return False
+    return norm(g.generators[0].iter) == iterable and norm(g.elt) == f"{g.generators[0].target.id}.{attr}"
+
+
+def _filter_in_flight(e, source: str) -> bool:
+    """e selects exactly the elements x of <source> with x.in_flight: filter(lambda x: x.in_flight, source) or a
+    comprehension / generator over source with that single condition (any variable name)"""
+    if isinstance(e, ast.Call) and call_name(e) == "filter" and len(e.args) == 2 and isinstance(e.args[0], ast.Lambda):
+        lam = e.args[0]
+        a = lam.args.args
+        return len(a) == 1 and norm(lam.body) == f"{a[0].arg}.in_flight" and norm(e.args[1]) == source
+    if isinstance(e, (ast.GeneratorExp, ast.ListComp)) and len(e.generators) == 1:
+        g = e.generators[0]
+        return isinstance(g.target, ast.Name) and norm(e.elt) == g.target.id and norm(g.iter) == source and [norm(i) for i in g.ifs] == [f"{g.target.id}.in_flight"]
+    return False
+
+
 def r3_r4(repo, chk):
     ctrl = _controllers(repo)
     base = repo.mod("quic.congestion.base")
@@ -305,7 +327,10 @@ def r3_r4(repo, chk):
             if ok:
                 st, t, v = upd[0]
                 loop = _loop_of(st)
-                if cb in ("on_packets_lost", "on_packets_expired"):
+                if cb in ("on_packets_lost", "on_packets_expired") and loop is None and _sum_over(v, "packets", "sent_bytes"):
+                    # one subtraction of sum(p.sent_bytes for p in packets): the same total as the per-packet loop
+                    ok = not fn.guard_atoms(st) and fn.cfg.postdominates(fn.cfg.node_of(st), fn.cfg.entry)
+                elif cb in ("on_packets_lost", "on_packets_expired"):
                     ok = loop is not None and norm(loop.iter) == "packets" and norm(v) == f"{norm(loop.target)}.sent_bytes" and not [a for a in fn.lexical_guards(st, expand=False)] and not [s for s in ast.walk(loop) if isinstance(s, (ast.Break, ast.Continue, ast.Return))]
                     # nothing can leave the function before the loop
                     ok = ok and fn.cfg.postdominates(fn.cfg.begin[loop], fn.cfg.entry)
